@@ -28,6 +28,18 @@ RULE = ("cases = --enable lists over {all,none,default}+nine traits (lengths 1-5
         "non-empty predicate list; distinct by the option vector")
 TRAITS = ["minmax_chains", "symmetry", "duplication", "cleanup", "unused", "sum_chains", "math", "inline", "projection"]
 
+WITNESS = {
+    "minmax_chains": "{ q(X) } :- d(X). m(M) :- M = #max { X : q(X) }. #show m/1.",
+    "sum_chains": "{ shift(D,L) : pshift(D,L) } 1 :- day(D). :~ shift(D,L). [L@1,D]",
+    "symmetry": "{ p(X) } :- d(X). :- p(A), p(B), A != B.",
+    "duplication": "a(X) :- p(X), q(X), r(X). b(X) :- p(X), q(X), s(X). c(X) :- p(X), q(X), t(X). #show a/1. #show b/1. #show c/1.",
+    "cleanup": "b(X) :- a(X). foo(X) :- a(X), b(X). #show foo/1.",
+    "unused": "u(X,Y) :- d(X,Y). a(X) :- u(X,_). #show a/1.",
+    "math": "p(X) :- q(X), X*3 = 12, X > 2. #show p/1.",
+    "inline": "{ a(X) } :- d(X). s(A,B) :- a(A), B = #sum { Y : person(A,Y) }. foo(X) :- X = #sum { F,V : s(V,F) }. #show foo/1.",
+    "projection": "p(A,D) :- q(A,B,C), r(A,D), t(E), not s(B,E). #show p/2.",
+}
+
 WRAPPER = r"""
 import json, sys
 import ngo.__main__ as m
@@ -231,6 +243,11 @@ def run(ctx) -> int:
             "#show b/1. #show foo/1. d(X) :- c(X), not e(X).")
     for f in fixed:
         cases.append((*f, demo))
+    # one program per trait on which that trait alone changes the output: `--enable t` and `--enable <the other eight>`
+    # tell a swapped or dropped keyword apart with a concrete command line (the wiring theorem alone names no input)
+    for t, wprog in WITNESS.items():
+        cases.append(([t], False, False, None, wprog))
+        cases.append(([x for x in TRAITS if x != t], False, False, None, wprog))
     while len(cases) < n_cli:
         vs = ctx.rng.choice([e for e in ens if spec_enable(e) is not None] * 3 + ens + [None] * 40)
         inv = ctx.rng.choice([False, False, None, "auto", "", "a/1", "a/1,b/1", "dom/1,edge/2", "a/1", "a" if ctx.rng.random() < 0.2 else "d/1"])
